@@ -190,7 +190,11 @@ def enabled(project, level='full', kinds=None, fresh_names=FRESH_FIELD_NAMES,
                         ok = False
             if ok:
                 out.append((label, ['DeleteApplication']))
-        if want('SQLBarrier'):
+        if want('RenameAppLabel') and kinds is not None and app['models']:
+            new = 'vz'
+            if S.get_app(project, new) is None:
+                out.append((label, ['RenameAppLabel', label, new]))
+        if want('SQLBarrier') and kinds is not None:
             out.append((label, ['SQLBarrier', 'barrier']))
     # validate against the reference semantics (drops anything Disabled)
     res = []
